@@ -52,4 +52,53 @@ theorem ecs_from_msg_src :
 theorem formerr_src : formerr_args = "req, dns.RcodeFormatError" := by decide
 theorem location_ecs_src : location_ecs_call = "req" := by decide
 
+/-- `ecsFamFromReq`: the family of the ECS option's address when there is one, else of the remote
+address (`Agd.ECS.ecsFamOf`). -/
+theorem ecs_fam_conds_src : ecs_fam_conds = "ecs != nil | addr.Is4()" := by decide
+theorem ecs_fam_addr_src : ecs_fam_addr = "ecs.Subnet.Addr()" := by decide
+/-- An opted-out request is mapped to the zero prefix of its family (`Agd.ECS.mapped`). -/
+theorem declined_subnet_src : declined_subnet_rhs = "netutil.ZeroPrefix(ecsFam)" := by decide
+/-- What a call computes about its request lives in an object of its own (`Agd.ECS.finish` takes the
+request's own key). -/
+theorem cache_req_from_pool_src : cache_req_from_pool = "mw.cacheReqPool.Get()" := by decide
+/-- The answer is filtered, stored, and only then given the client's ECS option. -/
+theorem upstream_resp_order_src : upstream_resp_order = "rmHopToHopData,mw.set,setECS,rw.WriteMsg" := by decide
+/-- Only EDE options survive in stored answers (`Agd.ECS.rmHop`). -/
+theorem not_ede_src : not_ede_return = "o.Option() != dns.EDNS0EDE" := by decide
+/-- The location of the ECS option is that of its subnet's address (`Agd.ECS.locOf`). -/
+theorem ecs_loc_lookup_src : ecs_loc_lookup_args = "ctx, subnet.Addr(), \"ecs\"" := by decide
+
+/-! `geoip.File` (`Agd.ECS.GeoDB`). -/
+theorem geo_loc_key_src : geo_loc_key_rhs = "newLocationKey(l.ASN, l.Country, l.TopSubdivision)" := by decide
+theorem geo_sbl_lookup0_src : geo_sbl_lookup0 = "locSubnets[locKey]" := by decide
+theorem geo_sbl_top_src : geo_sbl_top = "f.countryTopASNs[l.Country]" := by decide
+theorem geo_sbl_lookup1_src :
+    geo_sbl_lookup1 = "locSubnets[newLocationKey(l.ASN, CountryNone, \"\")]" := by decide
+theorem geo_sbl_lookup2_src : geo_sbl_lookup2 = "ctrySubnets[l.Country]" := by decide
+theorem geo_sbl_returns_src :
+    geo_sbl_returns = "n, nil | n, nil | n, nil | netutil.ZeroPrefix(fam), nil" := by decide
+theorem geo_sbl_cases_src :
+    geo_sbl_cases = "netutil.AddrFamilyIPv4 | netutil.AddrFamilyIPv6 | default" := by decide
+theorem geo_sbl_ctry4_src : geo_sbl_ctry4 = "f.ipv4CountrySubnets" := by decide
+theorem geo_sbl_ctry6_src : geo_sbl_ctry6 = "f.ipv6CountrySubnets" := by decide
+theorem geo_sbl_loc4_src : geo_sbl_loc4 = "f.ipv4LocationSubnets" := by decide
+theorem geo_sbl_loc6_src : geo_sbl_loc6 = "f.ipv6LocationSubnets" := by decide
+theorem geo_key_cases_src : geo_key_cases = "CountryRU,CountryUS,CountryCN,CountryIN | default" := by decide
+def replaceConds : String :=
+  "!ok | subnet.Bits() > desiredLength | dist(prev.Bits(), desiredLength) < dist(subnet.Bits(), desiredLength)"
+theorem geo_replace_src : geo_replace_conds = replaceConds := by decide
+theorem geo_desired4_src : geo_desired4 = "24" := by decide
+theorem geo_desired6_src : geo_desired6 = "56" := by decide
+theorem geo_loc_scan_src :
+    geo_loc_scan_conds = "err != nil | !f.allTopASNs.Has(key.asn) | subnet.Addr().Is4() | err != nil" := by decide
+theorem geo_loc_hack_cond_src : geo_loc_hack_conds = "n.Bits() < desiredLength" := by decide
+theorem geo_loc_hack_src : geo_loc_hack_rhs = "netip.PrefixFrom(n.Addr(), desiredLength)" := by decide
+theorem geo_ctry_hack_src : geo_ctry_hack_rhs = "netip.PrefixFrom(n.Addr(), desiredLength)" := by decide
+
+/-- The locations of a request are looked up once, in `ratelimitmw.location`, and carried in the
+request information (`Agd.ECS.Req.cl`, `.el`, `Agd.ECS.locate`). -/
+theorem ri_loc_assign_src : ri_loc_assign = "loc, ecs" := by decide
+theorem client_loc_lookup_src : client_loc_lookup_args = "ctx, remoteIP, \"client\"" := by decide
+theorem loc_data_call_src : loc_data_call = "\"\", ip" := by decide
+
 end Agd.Tie.C05
